@@ -24,6 +24,7 @@ var dicts = map[string][]string{
 	"sqlmid":     gen.SQLMid,
 	"htmlbytes":  gen.HTMLBytes,
 	"htmlfull":   gen.HTMLFull,
+	"htmlmid":    gen.HTMLMid,
 	"htmlbytes0": gen.HTMLBytesNoLtEq,
 	"htmlfull0":  gen.HTMLFullNoLtEq,
 }
